@@ -65,6 +65,8 @@ def values_for(cls, rng):
         return ['', b'']
     if cls == 'TextBraceNotJson':
         return ['{not json}', '[also not json]', '{"a": }', b'{\xff}']
+    if cls == 'TextMismatchedBrackets':
+        return ['[2026-10-02 12:00:01] worker restarted {pid=4312}', '{a]', '[1, 2}', b'{"a": 1]', '{' + 'x' * 300 + ']']
     if cls == 'TextJsonPadded':
         return [' {"a": 1}', '{"a": 1}\n', '\n[1]\n']
     if cls == 'Int':
